@@ -1051,7 +1051,12 @@ func New(c *Config, blockFilters []Filter) (d *DNSFilter, err error) {
 
 	defer func() { err = errors.Annotate(err, "filtering: %w") }()
 
-	d.conf = c
+	// Use a copy of the configuration and not c itself, since the caller may
+	// keep c and later pass it to [DNSFilter.WriteDiskConfig] as the
+	// destination, which must not write into the live configuration that is
+	// being read by DNS requests and the refresh worker.
+	conf := *c
+	d.conf = &conf
 	d.conf.filtersMu = &sync.RWMutex{}
 
 	err = d.prepareRewrites()
